@@ -4,6 +4,7 @@ import (
 	"encoding/json"
 	"fmt"
 	"regexp"
+	"runtime"
 	"strconv"
 	"strings"
 
@@ -328,15 +329,57 @@ func frameNames(fs []refsem.FrameInfo) []string {
 	return r
 }
 
+// c19ReportCost: producing the report costs memory in proportion to what it shows, not to the square of an operand's
+// size. An array of 2^k elements is the operand and the argument of a failing call; the bytes the host allocates
+// while the failing statement runs (runtime.MemStats.TotalAlloc, no clock involved) must stay within a generous
+// multiple of the array's rendered length.
+func c19ReportCost(k int) (sig, detail string) {
+	s := impl.NewSession()
+	for _, src := range []string{"a = [1234567]", fmt.Sprintf("for i <- fromto(0, %d) a = a + a", k), "f = (arr, d) -> #arr / d"} {
+		pr := impl.ParseCached(src)
+		if pr.Err != "" || len(pr.Trees) != 1 {
+			return "harness:report-cost", "generated statement does not parse: " + src
+		}
+		if r := s.RunTree(pr.Trees[0], 10000000); r.Panic != "" || r.FuelOut || r.Err != "" {
+			return "harness:report-cost", "set-up statement failed: " + src + ": " + r.Err + r.Panic
+		}
+	}
+	pr := impl.ParseCached("f(a, 0)")
+	var before, after runtime.MemStats
+	runtime.ReadMemStats(&before)
+	ir := s.RunInput(pr.Trees[0], 1000000)
+	runtime.ReadMemStats(&after)
+	if ir.Panic != "" {
+		return "report-panics", fmt.Sprintf("an array of 2^%d elements as operand: the report aborted: %s", k, ir.Panic)
+	}
+	if !strings.Contains(ir.Report, "division by zero") {
+		return "report-missing", fmt.Sprintf("an array of 2^%d elements as operand of a failing division: no division-by-zero report; output %q", k, clipStr(ir.Report, 200))
+	}
+	n := 1 << k
+	rendered := uint64(9*n + 2)
+	spent := after.TotalAlloc - before.TotalAlloc
+	if limit := 200*rendered + 16<<20; spent > limit {
+		return "report-cost-grows-faster-than-the-value", fmt.Sprintf("a failing `#arr / d` whose operand and argument is an array of 2^%d elements (%d bytes when written out): producing the report allocated %d bytes (limit %d = 200 x the rendered length + 16 MB)", k, rendered, spent, limit)
+	}
+	return "", ""
+}
+
 func init() {
 	core.Register(&core.Check{
 		ID:    "C19",
 		Level: "exploration",
 		Rule: "failing programs = raising operation (every operator family with operands of every failing kind, in plain and temp-register form, increment form, index and slice, call of a non-function, arity mismatch, non-boolean and nil conditions plain and negated, nil assignment, aton, read) x operand values (short and longer than 20 characters, arrays, functions, strings with line breaks) x site (top level; call depth 1..4 through named functions with reassigned parameters; through a parameter holding a function; through a closure; in a for / while body; inside a generator, a nested generator, a generator inside functions (the Readme's example), a zip; inside built-ins), plus every failing member of the operand-source x statement-context product of C01. " +
-			"Oracle: the captured report parses by the report grammar; its class is the reference model's; exactly one instruction is marked, it is the one the step hook saw last, its mnemonic belongs to the failing operation's family and the values after ';' are the operand values in source order, abbreviated to 20 characters; for the failing context and every context it was forked from the listed frames are the active calls, innermost first, with the names they were called by and the current values of their parameters; producing the report never panics. distinct = distinct program; non-trivial = programs that fail in both the implementation and the model",
+			"Oracle: the captured report parses by the report grammar; its class is the reference model's; exactly one instruction is marked, it is the one the step hook saw last, its mnemonic belongs to the failing operation's family and the values after ';' are the operand values in source order, abbreviated to 20 characters; for the failing context and every context it was forked from the listed frames are the active calls, innermost first, with the names they were called by and the current values of their parameters; producing the report never panics, and for an operand that is an array of 2^8 / 2^11 / 2^14 elements the bytes the host allocates while the failing statement runs stay within 200 x the array's written length + 16 MB (runtime.MemStats.TotalAlloc; no clock). distinct = distinct program; non-trivial = programs that fail in both the implementation and the model",
 		Assumptions: []string{"reference model refsem records the failing operation, its operand values and the active calls per coroutine", "context addresses are not compared"},
 		Exec: func(payload string) (string, string) {
 			impl.Init()
+			if strings.HasPrefix(payload, `{"reportcost"`) {
+				var rc struct{ Reportcost int }
+				if err := json.Unmarshal([]byte(payload), &rc); err != nil {
+					return "harness:bad-payload", err.Error()
+				}
+				return c19ReportCost(rc.Reportcost)
+			}
 			var it c19Item
 			if err := json.Unmarshal([]byte(payload), &it); err != nil {
 				return "harness:bad-payload", err.Error()
@@ -538,6 +581,17 @@ func c19Run(w *core.W) {
 					return
 				}
 			}
+		}
+	}
+	w.Family("report cost")
+	for _, k := range []int{8, 11, 14} {
+		b, _ := json.Marshal(map[string]int{"reportcost": k})
+		if !w.Mine(string(b)) {
+			continue
+		}
+		w.NonTrivial()
+		if sig, detail := c19ReportCost(k); sig != "" {
+			w.Fail(string(b), sig, detail)
 		}
 	}
 	w.Family("inside built-ins")
